@@ -359,11 +359,24 @@ func c01Rread(ctx *core.Ctx, dotu bool, nrand int) core.Result {
 		if !bytes.Equal(fc.Pkt, want0) {
 			res.Violate("initrread-bytes", "packet after InitRread+fill differs from Rread layout", det)
 		}
+		// the tag is set either after both steps or between them (a server that tags the reply as soon as it has
+		// initialised it): SetRreadCount adjusts size and count and leaves the rest of the header alone
+		tag := uint16(r.Uint64())
+		between := res.Evals%2 == 0
+		det["tag_set_between_the_steps"] = between
+		if between {
+			go9p.SetTag(fc, tag)
+		}
 		if !safely(&res, "setrreadcount", det, func() { go9p.SetRreadCount(fc, uint32(k)) }) {
 			return
 		}
-		tag := uint16(r.Uint64())
-		go9p.SetTag(fc, tag)
+		if !between {
+			go9p.SetTag(fc, tag)
+		} else if w := wire.Encode(&wire.Msg{Type: wire.Rread, Tag: tag, Count: uint32(k), Data: data[:k]}, dotu); !bytes.Equal(fc.Pkt, w) && len(fc.Pkt) == len(w) &&
+			bytes.Equal(fc.Pkt[:5], w[:5]) && bytes.Equal(fc.Pkt[7:], w[7:]) {
+			res.Violate("setrreadcount-disturbs-tag", fmt.Sprintf("InitRread(%d), SetTag(%d), SetRreadCount(%d): the tag on the wire is %d", n, tag, k, uint16(fc.Pkt[5])|uint16(fc.Pkt[6])<<8), det)
+			return
+		}
 		want := wire.Encode(&wire.Msg{Type: wire.Rread, Tag: tag, Count: uint32(k), Data: data[:k]}, dotu)
 		if !bytes.Equal(fc.Pkt, want) || int(fc.Size) != len(want) || int(fc.Count) != k || !bytes.Equal(fc.Data, data[:k]) {
 			res.Violate("setrreadcount-bytes", fmt.Sprintf("InitRread(%d), SetRreadCount(%d): packet is not Rread(data[:%d])", n, k, k), det)
